@@ -15,9 +15,9 @@
 //! The tree sent to Coq is a snapshot read back from `SystemState::file_system`
 //! after it was built, not the generator's plan.
 //!
-//! `--opt findings=all` also emits the cases of the open candidate finding
-//! (tag FDANGLING: a literal last component that names a symbolic link whose
-//! target does not resolve).
+//! Dangling links named by a literal last component (repaired in /repo by
+//! 7d0a5f7; reverting that commit must make this check fail) are ordinary
+//! cases; the histogram counts them as `last-names-broken-link`.
 
 use std::cell::RefCell;
 use std::collections::HashMap;
@@ -218,7 +218,7 @@ fn fixed_trees() -> Vec<Tree> {
             ("v", link("d/../a")),
             ("w", link("./d/./x")),
         ]),
-        // 7: the witness of the candidate finding FDANGLING
+        // 7: a dangling link (glob.rs missed */dl before 7d0a5f7)
         t(&[("sub", Dir(true)), ("sub/dl", link("zz")), ("sub/f", File)]),
     ]
 }
@@ -281,8 +281,8 @@ fn snapshot(state: &SystemState) -> Tree {
 
 /// Names of the symbolic links of the tree that cannot be followed to an
 /// existing file.  Decided by the harness's own reading of the tree (not by
-/// asking the implementation), and only used to recognise the cases of the
-/// candidate finding FDANGLING.
+/// asking the implementation), and only used for the input-distribution
+/// histogram (cases whose literal last component names such a link).
 fn broken_links(tree: &Tree) -> Vec<String> {
     fn comps(path: &str) -> Vec<Option<String>> {
         // None = `..`
@@ -924,7 +924,6 @@ fn tree_show(t: &Tree) -> Vec<String> {
 
 struct Ctx {
     w: CasesWriter,
-    findings_all: bool,
     /// working directory of the shell process for the next cases ("" = the default)
     cwd: String,
 }
@@ -941,14 +940,11 @@ impl Ctx {
         script: Option<&str>,
         out: &Out,
     ) {
-        // candidate finding: a literal last component naming a link that cannot be followed
-        // (on the virtual file system `link/.` names the link itself, so a last
-        // component `.` is affected as well)
+        // a literal last component naming a link that cannot be followed (on the
+        // virtual file system `link/.` names the link itself)
         let last = last_component_text(field);
-        let dangling = !noglob && !broken.is_empty() && (last == "." || broken.iter().any(|b| *b == last));
-        if dangling && !self.findings_all {
-            self.w.count("skipped:FDANGLING");
-            return;
+        if !noglob && !broken.is_empty() && (last == "." || broken.iter().any(|b| *b == last)) {
+            self.w.count("last-names-broken-link");
         }
         let (out_coq, out_json, nontrivial) = match out {
             Out::Fields(v) => {
@@ -1006,8 +1002,7 @@ impl Ctx {
         } else {
             None
         };
-        let tags: Vec<&str> = if dangling { vec!["FDANGLING"] } else { vec![] };
-        self.w.push(&term, &json, &tags, key);
+        self.w.push(&term, &json, &[], key);
     }
 
     fn api(&mut self, stream: &str, tree: &Tree, reset: bool, noglob: bool, field: &[AttrChar]) {
@@ -1038,8 +1033,7 @@ fn plain_units(s: &str) -> Vec<Unit> {
 fn main() {
     let args = Args::parse();
     let mut rng = Rng::new(args.seed);
-    let findings_all = args.opt("findings") == Some("all");
-    let mut cx = Ctx { w: CasesWriter::new(&args, "Yv.C05.Run", if args.thorough() { 150 } else { 60 }), findings_all, cwd: String::new() };
+    let mut cx = Ctx { w: CasesWriter::new(&args, "Yv.C05.Run", if args.thorough() { 150 } else { 60 }), cwd: String::new() };
     let fixed = fixed_trees();
 
     // ---- corpus -----------------------------------------------------------
